@@ -165,10 +165,11 @@ ApiEdit(ev) ==
     [] op = "rotr"     -> R(Rotr(b, a.n), OUnit)
     [] op = "reserve"  -> R(b, OUnit)
     [] op = "shrink_to_fit" -> R(b, OUnit)
+    [] op = "clone_from" -> R(yb, OUnit)     \* Clone::clone_from(&mut x, &y), y of x's own type: x becomes y
 
 EditOps == {"set", "push", "pop", "resize", "truncate", "sign_extend", "append", "prepend",
             "insert", "extend", "split_off", "split", "copy_range", "shl_in", "shr_in",
-            "rotl", "rotr", "reserve", "shrink_to_fit"}
+            "rotl", "rotr", "reserve", "shrink_to_fit", "clone_from"}
 
 (***************************************************************************)
 (* Operators.  ev.y is a vector or a native integer (a vector of the       *)
